@@ -779,6 +779,13 @@ func (r *NgReader) ZeroCopyReadPacketDataWithOptions() (data []byte, ci gopacket
 	if cap(r.packetBuf) < ci.CaptureLength {
 		// pre-size to the declared snap length when the packet respects it
 		if snaplen := int(r.ifaces[ci.InterfaceIndex].SnapLength); snaplen >= ci.CaptureLength && uint32(ci.CaptureLength) <= r.currentBlock.length {
+			if snaplen > 1<<20 && snaplen > ci.CaptureLength {
+				// do not trust an enormous declared snap length up front
+				snaplen = 1 << 20
+				if snaplen < ci.CaptureLength {
+					snaplen = ci.CaptureLength
+				}
+			}
 			r.packetBuf = make([]byte, snaplen)
 		}
 	}
